@@ -42,7 +42,7 @@ BUDGETS = {'C01': (50, 1200, 10), 'C02': (50, 1200, 10), 'C20': (50, 1200, 10)}
 LEVELS = {'C01': 'exploration', 'C02': 'exploration', 'C20': 'exploration'}
 WALL_LIMIT = {('C02', 'quick'): 240, ('C02', 'thorough'): 240}
 PROBES = {
-    'C01': ['cycle', 'diamond', 'self_link', 'duplicate_link', 'alt_spelling', 'redirect', 'requisites', 'css_url', 'concurrency>1',
+    'C01': ['page_with_over_1000_links', 'cycle', 'diamond', 'self_link', 'duplicate_link', 'alt_spelling', 'redirect', 'requisites', 'css_url', 'concurrency>1',
             'depth_limited', 'no_parent', 'regex', 'multi_start', 'redirect_target_also_linked', 'depth_race_possible', 'keepalive_off'],
     'C02': ['robots_fetch_failed', 'offered_foreign_host', 'offered_upward_path', 'offered_deep', 'offered_regex_rejected', 'offered_excluded_dir',
             'offered_rejected_suffix', 'cross_host_redirect', 'waiver_used', 'retry', 'requests_attributed', 'span_hosts_allow',
@@ -492,6 +492,22 @@ def gen_c01(tape, tier):
         extra = pages[1 + tape.draw(len(pages) - 1, 'start.extra')]
         if extra.origin.key() == starts[0].origin.key() and extra not in starts:
             starts.append(extra)
+    if tape.chance(1, 20, 'site.bigpage'):
+        # one page with far more than 1000 links (child URLs are handed to the table in batches of 1000 while the page is
+        # still being processed): most are the same few pages in different spellings (fragments), the rest small pages
+        big = pages[tape.draw(len(pages), 'site.bigpage.which')]
+        same = [p for p in pages if p.origin.key() == big.origin.key()]
+        tiny = [site.add(big.origin, big.dir + 'many/t%d.html' % i, 'page') for i in range(tape.between(6, 14, 'site.bigpage.tiny'))]
+        nfrag = tape.choice((990, 1200, 2100), 'site.bigpage.nfrag')
+        links = []
+        for i in range(nfrag):
+            dst = same[i % len(same)]
+            links.append((dst, dst.path + ('?' + dst.query if dst.query else '') + '#frag%d' % i))
+        links += [(t, t.path) for t in tiny]
+        order = tape.subrng('site.bigpage.order')
+        order.shuffle(links)
+        big.links.extend(links)
+        site.big_page = big.url
     site.finalize()
     return site, starts, opts
 
@@ -823,6 +839,8 @@ def run(tape, prop, tier):
             r.probes['regex'] += 1
         if len(starts) > 1:
             r.probes['multi_start'] += 1
+        if getattr(site, 'big_page', None):
+            r.probes['page_with_over_1000_links'] += 1
         if opts.get('no_keep_alive'):
             r.probes['keepalive_off'] += 1
         if prop == 'C01':
